@@ -2,9 +2,10 @@
 # evaluate every /tmp/seed_cNN/SEED/bugK (wave 1 -> sK) and /tmp/seed2_cNN/SEED/bugK (wave 2 -> s(K+2))
 # not yet present under /verif/seeded
 cd /verif
-for d in /tmp/seed10_c*/SEED/bug* /tmp/seed11_c*/SEED/bug*; do
+for d in /tmp/seed11_c*/SEED/bug* /tmp/seed12_c*/SEED/bug*; do
   [ -f "$d/patch.diff" ] && [ -f "$d/demo.py" ] && [ -f "$d/meta.json" ] || continue
   case "$d" in
+    /tmp/seed12_*) n=$(echo $d | sed "s#/tmp/seed12_c\([0-9]*\)/SEED/bug\([0-9]*\)#C\1 \2#" | awk "{printf \"%s-s%d\", \$1, \$2+22}");;
     /tmp/seed11_*) n=$(echo $d | sed "s#/tmp/seed11_c\([0-9]*\)/SEED/bug\([0-9]*\)#C\1 \2#" | awk "{printf \"%s-s%d\", \$1, \$2+20}");;
     /tmp/seed10_*) n=$(echo $d | sed "s#/tmp/seed10_c\([0-9]*\)/SEED/bug\([0-9]*\)#C\1 \2#" | awk "{printf \"%s-s%d\", \$1, \$2+18}");;
     /tmp/seed9_*) n=$(echo $d | sed "s#/tmp/seed9_c\([0-9]*\)/SEED/bug\([0-9]*\)#C\1 \2#" | awk "{printf \"%s-s%d\", \$1, \$2+16}");;
